@@ -40,20 +40,14 @@ Proof. unfold a_no_file, with_abs. destruct (resolve env m s) as [p|e]; cbn [snd
 Theorem a_is_symlink_iff env m s : (a_is_symlink env m s).2 = Pass ↔ ∃ p, resolve env m s = inl p ∧ is_symlink_at m p = true.
 Proof.
   unfold a_is_symlink, with_abs. destruct (resolve env m s) as [p|e]; cbn [snd fst]; [|bad].
-  unfold exists_at. destruct (is_symlink_at m p) eqn:Ed.
-  - assert (is_Some (m_ents m !! p)) as Hs by (unfold is_symlink_at in Ed; destruct (m_ents m !! p); [eauto | done]).
-    rewrite bool_decide_eq_true_2 by done. good p.
-  - destruct (bool_decide _); bad; simplify_eq; congruence.
+  destruct (is_symlink_at m p) eqn:Ed; cbn [negb]; [good p|].
+  destruct (exists_at m p); bad; simplify_eq; congruence.
 Qed.
 
 Theorem a_no_symlink_iff env m s : (a_no_symlink env m s).2 = Pass ↔ ∃ p, resolve env m s = inl p ∧ is_symlink_at m p = false.
 Proof.
   unfold a_no_symlink, with_abs. destruct (resolve env m s) as [p|e]; cbn [snd fst]; [|bad].
-  destruct (is_symlink_at m p) eqn:Ed.
-  - assert (exists_at m p = true) as He.
-    { unfold exists_at. apply bool_decide_eq_true_2. unfold is_symlink_at in Ed. destruct (m_ents m !! p); [eauto | done]. }
-    rewrite He. cbn [andb]. bad; simplify_eq; congruence.
-  - rewrite andb_false_r. good p.
+  destruct (is_symlink_at m p) eqn:Ed; [bad; simplify_eq; congruence | good p].
 Qed.
 
 Theorem a_read_all_iff env m s d : (a_read_all env m s d).2 = Pass ↔
